@@ -5,6 +5,7 @@
 (*   nret {}  a nested Schedule call (of some including stage) returned                                        *)
 (*   RunEnter {s} / RunExit {s}     CmdStart {s, role} / CmdEnd {s, role, err}  (role tb cmd ta)             *)
 (*   CmdStart {c, role} / CmdEnd {c, role, err}  (role up cb ca down) done {err, final}      end {}          *)
+(*   summary {printed, exitfail, lines}  what the process printed and returned (from its stdout / exit status)  *)
 EXTENDS Taskctl, Json, TLCExt
 Log == ndJsonDeserialize("trace.ndjson")
 VARIABLE l
@@ -73,10 +74,17 @@ TDone == /\ Is("done") /\ loop /\ (\A s \in Stages : gr[s] = 0 => status[s] \not
          /\ gerr[0] = Ev.err /\ (\A s \in Stages : status[s] = Ev.final[s])
          /\ loop' = FALSE /\ Consume
          /\ UNCHANGED <<cfgv, status, gerr, want, twice, nl, by, gpc, rpc, pt, role, done, rfail, ran, upst, dn>>
+\* what the user is told when the process exits: a failed run exits non-zero and prints no summary; a
+\* run that succeeded lists every stage of the pipeline that was asked for, once, with its final status
+\* (completed or skipped: nothing else can be left), and no stage of an included pipeline
+TSummary == /\ Is("summary") /\ ~loop /\ Ev.exitfail = gerr[0] /\ Ev.printed = ~gerr[0]
+            /\ (Ev.printed => \A s \in Stages : Ev.lines[s] = IF gr[s] = 0 THEN status[s] ELSE "-")
+            /\ (Ev.printed => \A s \in Stages : gr[s] = 0 => status[s] \in {"D", "S"})
+            /\ Consume /\ UNCHANGED vars
 \* the process has exited: every context that was used has been taken down
 TEnd == /\ Is("end") /\ AllOver /\ Consume /\ UNCHANGED vars
 TNext == TReset \/ TStLoop \/ TStDupCancel \/ TStDupSkip \/ TStPublish \/ TEnter \/ TRet \/ TNRet \/ TRunEnter \/ TRunExit \/ TCmdStart \/ TCmdEnd
-         \/ TCtxStart \/ TCtxEnd \/ TDownStart \/ TDownEnd \/ TDone \/ TEnd
+         \/ TCtxStart \/ TCtxEnd \/ TDownStart \/ TDownEnd \/ TDone \/ TSummary \/ TEnd
 HW == TLCSet(1, IF TLCGet(1) < l THEN l ELSE TLCGet(1))
 Accepted == TLCGet(1) = Len(Log) + 1
 Matched == PrintT(<<"MATCHED", ToJson([upto |-> TLCGet(1) - 1, of |-> Len(Log)])>>)
